@@ -102,6 +102,16 @@ def windows(name, ws, pick):
         yield 'dyld-announced-split', [E.ev('TRACE_STRING_GLOBAL', ch[0][1], data=ch[0][0]), undecoded('T'),
                                       E.ev('TRACE_STRING_GLOBAL', ch[1][1], data=ch[1][0]), S, En]
         yield 'dyld-announced-empty', [g0, S, En]
+        if name == 'DBG_DYLD_TIMING_DLOPEN':
+            # a library opened under a string id nobody announced, the handle it returned closed afterwards (once, twice), the same handle
+            # returned again for a library whose path IS known
+            H = e[1] or 0xbeef
+            En_h = dev(name, 2, (e[0], H, e[2], e[3]))
+            close = [E.ev('DBG_DYLD_TIMING_DLCLOSE', 1, (H, H, 0, 0)), E.ev('DBG_DYLD_TIMING_DLCLOSE', 2, (0, 0, 0, 0))]
+            yield 'dlopen-unannounced-then-dlclose', [S, En_h] + close
+            yield 'dlopen-unannounced-then-dlclose-twice', [S, En_h] + close + close
+            yield 'dlopen-announced-dlclose-reopen-unannounced-dlclose', [g, S, En_h] + close + [E.ev('TRACE_STRING_GLOBAL', 3, data=B.global_string_chunks(0, STR_ID + 1, '')[0][0]),
+                                                                                                  dev(name, 1, (s[0], STR_ID + 2, STR_ID + 2, s[3])), En_h] + close
     if name in FAMILY['tstr']:
         dn = FAMILY['tstr'][name]
         yield 'data+string', [E.ev(dn, 0, (77, 88, 0, 0)), dev(name, 0, s)]
@@ -284,6 +294,25 @@ class C07(Check):
                     self._one(acc, 'BSC_read', ('pow2', n, shape), evs, nontrivial=True)
         elif kind == 'facade':
             tc = dict(E.codes())
+            # unexpected context of another kind: a log section behind the events of a version-3 dump, listed with and without filters
+            logs = [B.v3_block(B.TAG_LOG_STRINGS, B.bplist({'StringIndex': {'hello': 1, 'proc': 2}})),
+                    B.v3_block(B.TAG_LOG_EVENTS, B.bplist({'Events': [{'cm': 1, 't': 'logEvent', 's': 1, 'tid': 1, 'ns': 5, 'mct': 6, 'b': b'B' * 16, 'piu': b'P' * 16,
+                                                                      'ud': {'sec': 1600000000, 'usec': 7}, 'utz': {'mw': 0, 'dt': 0}, 'p': 2, 'pid': 10}]}))]
+            recs = [B.rec(5, (1, 2, 3, 4), 1, E.n2i('BSC_getpid') | 1), B.rec(6, (0, 5, 0, 0), 1, E.n2i('BSC_getpid') | 2)]
+            for setting in ({}, {'filter_class': [4]}, {'filter_subclass': [0x040c]}, {'filter_tid': 1}, {'filter_process': 'p'}):
+                f = PyKdebugParser()
+                for k, v in setting.items():
+                    setattr(f, k, v)
+                bad = None
+                try:
+                    lines = list(f.formatted_traces(io.BytesIO(B.v3([(1, 10, 'p')], [recs], logs)), tc))
+                    if len(lines) != 1:
+                        bad = ('trace-stream-cut-short-before-a-log-section', {'lines': lines, 'filters': repr(setting)})
+                except Exception as ex:
+                    bad = (f'{type(ex).__name__}@{site_of(ex.__traceback__)}', {'error': repr(ex)[:200], 'via': 'formatted_traces of a version-3 dump with log records', 'filters': repr(setting)})
+                acc.case(nontrivial=True, transitions=3, outcome=h64(('v3-logs', repr(setting))))
+                if bad:
+                    acc.violation(bad[0], {'decoder': 'BSC_getpid', 'events': 'getpid START/END + a log section', 'via': 'formatted_traces'}, bad[1])
             for name in decoders():
                 s, e = D.in_domain(name, 'se', *WORDSETS['junk'], 1)
                 evs = [dev(name, 1, s), dev(name, 2, e), dev(name, 0, D.in_domain(name, 'single', *WORDSETS['junk'], 1)[0])]
